@@ -25,6 +25,7 @@ func checkC11(r *Run) {
 	checkWakeups(r, la)
 	checkRouting(r, la)
 	checkLoopFlags(r, "C11.G8", Scope{Include: []string{"pkg/network/"}})
+	checkRunnerCorrelationIDs(r)
 }
 
 // waiterInfo describes the function that blocks in `for { lock; scan; unlock; select{...} }`.
@@ -613,4 +614,53 @@ func deleteLoopPrecedes(info *types.Info, fd *FuncDecl, at ast.Node, field *type
 		return true
 	})
 	return res
+}
+
+// checkRunnerCorrelationIDs: within one runner every exchange uses a different constant correlation id
+// that contains no namespace separator.
+func checkRunnerCorrelationIDs(r *Run) {
+	r.Rule("C11.S2", "runner correlation ids: inside one Run method the correlation ids passed to the exchange functions are compile-time constants, pairwise distinct, and contain no \"/\" (Namespaced relies on it)")
+	n := 0
+	for _, fd := range r.Prog.FuncsIn(Scope{Include: []string{"pkg/"}}) {
+		if fd.Obj.Name() != "Run" || fd.Decl.Recv == nil {
+			continue
+		}
+		seen := map[string]bool{}
+		sites := 0
+		bad := ""
+		for _, op := range r.callSeqOf(fd) {
+			if !strings.HasPrefix(op, "pkg/network/exchange.") && !strings.HasPrefix(op, "pkg/network.SendUnicast") && !strings.HasPrefix(op, "pkg/network.ReceiveUnicast") {
+				continue
+			}
+			i := strings.IndexByte(op, '(')
+			if i < 0 {
+				bad = "exchange call without a constant correlation id: " + op
+				sites++
+				continue
+			}
+			sites++
+			id := op[i:]
+			kind := op[:i]
+			// a send and its matching receive legitimately share an id
+			k := id
+			if strings.Contains(kind, "SendUnicast") || strings.Contains(kind, "UnicastSend") {
+				k = "send" + id
+			} else if strings.Contains(kind, "ReceiveUnicast") || strings.Contains(kind, "UnicastReceive") {
+				k = "recv" + id
+			}
+			if seen[k] {
+				bad = "correlation id " + id + " is used for two exchanges of the same runner"
+			}
+			seen[k] = true
+			if strings.Contains(id, "/") {
+				bad = "correlation id " + id + " contains the namespace separator"
+			}
+		}
+		if sites == 0 {
+			continue
+		}
+		n++
+		r.Check(bad == "", "C11.S2", FuncKey(fd.Obj), r.Prog.RelPos(fd.Decl.Pos()), fmt.Sprintf("%d exchanges %s", sites, bad))
+	}
+	r.RequireCount("C11.S2", "runners with exchanges", n, 10)
 }
